@@ -85,9 +85,9 @@ func Registry() []*Spec {
 		Note: "every typed equation tree with <= OPS operators over == < >= && || ! + - *, leaves @.a @.b @.c and a symbolic int constant: (quick: == && || ! - * only) Equation.String() through MustParseEquation and the Filter/Script printer through ParseString: parses, prints identically, and evaluates identically for all a,b,c in [-4,3], p,q bool"})
 	// ---- C19: Diff / Compare / Match
 	add(Spec{Property: "C19", Name: "VerifC19_Diff", Pkg: "alt",
-		Quick: map[string]int{"MAXIGN": 1, "LEAFKINDS": 3}, Thorough: map[string]int{"MAXIGN": 2, "LEAFKINDS": 6},
+		Quick: map[string]int{"MAXIGN": 1, "LEAFKINDS": 3}, Thorough: map[string]int{"MAXIGN": 2, "LEAFKINDS": 4},
 		Covers: []string{"equal", "different"}, UnitDepth: 4,
-		Note: "alt.Diff/Compare on 22 shape pairs (depth <= 2, <= 3 leaves, symbolic a/b keys) with symbolic small leaves of LEAFKINDS kinds (int64, integral float64, nil, int, non-integral float, string) and 0..MAXIGN ignore paths from a menu of 9 (indexes, keys, wildcards, 2-element paths); the same trees held as gen nodes (alt.Generify) give the same Diff paths and the same Compare verdict"})
+		Note: "alt.Diff/Compare on 22 shape pairs (depth <= 2, <= 3 leaves, symbolic a/b keys) with symbolic small leaves of LEAFKINDS kinds (int64, integral float64, nil, int; VerifC19_Match thorough also non-integral float, string) and 0..MAXIGN ignore paths from a menu of 9 (indexes, keys, wildcards, 2-element paths); the same trees held as gen nodes (alt.Generify) give the same Diff paths and the same Compare verdict"})
 	add(Spec{Property: "C19", Name: "VerifC19_Match", Pkg: "alt",
 		Quick: map[string]int{"LEAFKINDS": 4}, Thorough: map[string]int{"LEAFKINDS": 6},
 		Covers: []string{"match", "nomatch"}, UnitDepth: 3,
